@@ -742,10 +742,11 @@ impl Engine for C15 {
         }
     }
 
-    fn generate(&self, rng: &mut Rng, _tier: Tier) -> Case {
-        let capacity = *rng.pick(&[1u32, 1, 2, 2, 3, 5, 64]);
+    fn generate(&self, rng: &mut Rng, tier: Tier) -> Case {
+        let deep = tier == Tier::Thorough && rng.chance(1, 4);
+        let capacity = if deep { *rng.pick(&[1u32, 2, 3, 4, 6, 8]) } else { *rng.pick(&[1u32, 1, 2, 2, 3, 5, 64]) };
         let keyspace = *rng.pick(&[2usize, 3, NKEYS]);
-        let nthreads = rng.range(2, 4) as usize;
+        let nthreads = if deep { rng.range(3, 6) as usize } else { rng.range(2, 4) as usize };
         // swarm: per-run op weights (verify, update, evict, len, clone-verify)
         let mut w = [4u64, 0, 0, 0, 0];
         for x in w.iter_mut().skip(1) {
@@ -761,7 +762,7 @@ impl Engine for C15 {
             .collect();
         let mut threads = vec![];
         for _ in 0..nthreads {
-            let nops = rng.range(1, 3) as usize;
+            let nops = if deep { rng.range(2, 5) as usize } else { rng.range(1, 3) as usize };
             threads.push((0..nops).map(|_| gen_op(rng, keyspace, &w)).collect::<Vec<Op>>());
         }
         let est: usize = threads.iter().flatten().map(op_cost).sum();
